@@ -377,8 +377,9 @@ fn explore(p: &Prog, out: &mut Out) {
                     s.trigger_key_interrupt();
                 }
                 for mode in [StepMode::Real, StepMode::Assembly] {
-                    s.set_step_mode(mode);
                     let k = if e % 7 == 3 { 3 } else { 1 };
+                    mc::watch::progress(|| p.line(e, int, k));
+                    s.set_step_mode(mode);
                     local.states += 1;
                     match check_state(&s, k) {
                         Ok((n, hang)) => {
@@ -405,6 +406,7 @@ fn explore(p: &Prog, out: &mut Out) {
         }
         local
     });
+    mc::watch::idle();
     match r {
         Ok(l) => {
             out.states += l.states;
@@ -490,6 +492,7 @@ pub fn run() {
     // termination over all opcode bytes
     let ops = opcode_progs();
     let res = mc::par_map(&ops, |(p, defined)| {
+        mc::watch::progress(|| p.line(0, false, 3));
         let r = mc::catch(|| {
             let mut m = p.machine();
             // first step: performs the first fetch (the power-on state is inside the reset pseudo-instruction)
@@ -511,6 +514,7 @@ pub fn run() {
             }
             Ok((hangs_at, steps_ok))
         });
+        mc::watch::idle();
         (p.clone(), *defined, r)
     });
     let mut hang_defined = vec![];
